@@ -150,14 +150,37 @@ dispatch_walltime(const struct timespec *inval, int64_t delta)
 {
 	int64_t nsec;
 	if (inval) {
-		nsec = (int64_t)_dispatch_timespec_to_nano(*inval);
+		// Sum the whole seconds first: what is left of tv_nsec and delta is
+		// less than two seconds, so only the seconds can be out of range.
+		int64_t sec;
+		if (os_add_overflow((int64_t)inval->tv_sec,
+				(int64_t)inval->tv_nsec / (int64_t)NSEC_PER_SEC +
+				delta / (int64_t)NSEC_PER_SEC, &sec)) {
+			sec = inval->tv_sec < 0 ? INT64_MIN : INT64_MAX;
+		}
+		if (sec < -2) {
+			return (dispatch_time_t)-2ll; // before the epoch
+		}
+		if (sec > (int64_t)(DISPATCH_TIME_MAX_VALUE / NSEC_PER_SEC) + 2) {
+			return DISPATCH_TIME_FOREVER;
+		}
+		nsec = sec * (int64_t)NSEC_PER_SEC +
+				(int64_t)inval->tv_nsec % (int64_t)NSEC_PER_SEC +
+				delta % (int64_t)NSEC_PER_SEC;
 	} else {
 		nsec = (int64_t)_dispatch_get_nanoseconds();
+		if (os_add_overflow(nsec, delta, &nsec)) {
+			return delta < 0 ? (dispatch_time_t)-2ll : DISPATCH_TIME_FOREVER;
+		}
 	}
-	nsec += delta;
 	if (nsec <= 1) {
 		// -1 is special == DISPATCH_TIME_FOREVER == forever
-		return delta >= 0 ? DISPATCH_TIME_FOREVER : (dispatch_time_t)-2ll;
+		return (dispatch_time_t)-2ll;
+	}
+	if ((uint64_t)nsec > DISPATCH_TIME_MAX_VALUE) {
+		// Out-of-range for the wall clock, and -nsec would no longer have
+		// the wall clock's top bits.
+		return DISPATCH_TIME_FOREVER;
 	}
 	return (dispatch_time_t)-nsec;
 }
